@@ -11,6 +11,9 @@
  *   W <slot> <path> <ms> <rs> <rns> <ms> <mns>  a thread of this program plays a daemon that never pauses (it bumps the
  *                                         generation of <path> as fast as it can) while clockbound_now is called on the
  *                                         slot until a call gives up (retry budget) or <ms> have passed; then the thread stops
+ *   K <slot> <path> <k> <rs> <rns> <ms> <mns> <112 hex digits>   clockbound_now on an open slot; while the call's k-th read
+ *                                         of a clock (0-based, any clock) is in progress a complete publication of the given
+ *                                         56-byte record lands in <path> (generation made odd, record stored, generation + 2)
  *   R <slot>                              clockbound_close the slot
  *   M                                     print the number of open file descriptors and of memory mappings
  *   F <call> <nth> <errno>                the nth (0-based) open (0) / read (1) / mmap (2) made from now on fails once
@@ -38,9 +41,31 @@ static struct timespec v_real, v_mono;
 static int v_on = 0, v_fail_errno = 0, v_fail_clk = -1;
 static int reads_real = 0, reads_mono = 0, first_read = -1;
 
+static int k_at = -1;
+static char k_path[4096];
+static unsigned char k_rec[56];
+static void k_publish(void) {
+        int fd = (int)syscall(SYS_openat, AT_FDCWD, k_path, O_RDWR, 0);
+        if (fd < 0) return;
+        uint16_t g = 0;
+        if (pread(fd, &g, 2, 14) == 2) {
+                uint16_t odd = (uint16_t)(g + 1);
+                if (pwrite(fd, &odd, 2, 14) == 2 && pwrite(fd, k_rec, 56, 16) == 56) {
+                        uint16_t even = (uint16_t)(g + 2);
+                        if (even == 0) even = 2;
+                        if (pwrite(fd, &even, 2, 14) != 2) { /* nothing to do about it */ }
+                }
+        }
+        syscall(SYS_close, fd);
+}
+
 int clock_gettime(clockid_t clk, struct timespec *ts) {
         if (!v_on)
                 return (int)syscall(SYS_clock_gettime, clk, ts);
+        if (k_at >= 0 && reads_real + reads_mono == k_at) {
+                k_at = -1;
+                k_publish();
+        }
         int is_real = (clk == CLOCK_REALTIME || clk == CLOCK_REALTIME_COARSE || clk == CLOCK_TAI);
         if (first_read < 0)
                 first_read = is_real ? 0 : 1;
@@ -144,6 +169,24 @@ int main(void) {
                         v_on = 1;
                         const clockbound_err *e = clockbound_now(slots[slot], &res);
                         v_on = 0;
+                        if (e) print_err("now", e);
+                        else printf("now ok %lld %lld %lld %lld %d\n", (long long)res.earliest.tv_sec, (long long)res.earliest.tv_nsec, (long long)res.latest.tv_sec, (long long)res.latest.tv_nsec, (int)res.clock_status);
+                        fflush(stdout);
+                        continue;
+                }
+                if (line[0] == 'K') {
+                        int slot, k, off = 0; long long rs, rns, ms, mns; char hex[128];
+                        if (sscanf(line + 2, "%d %4095s %d %lld %lld %lld %lld %112s%n", &slot, k_path, &k, &rs, &rns, &ms, &mns, hex, &off) != 8 || slot < 0 || slot >= 16 || !slots[slot] || strlen(hex) != 112) { printf("bad\n"); fflush(stdout); continue; }
+                        for (int i = 0; i < 56; i++) { unsigned v; sscanf(hex + 2 * i, "%2x", &v); k_rec[i] = (unsigned char)v; }
+                        clockbound_now_result res;
+                        memset(&res, 0x5a, sizeof res);
+                        v_real.tv_sec = rs; v_real.tv_nsec = rns; v_mono.tv_sec = ms; v_mono.tv_nsec = mns;
+                        v_fail_errno = 0; v_fail_clk = -1; reads_real = reads_mono = 0; first_read = -1;
+                        k_at = k;
+                        v_on = 1;
+                        const clockbound_err *e = clockbound_now(slots[slot], &res);
+                        v_on = 0;
+                        k_at = -1;
                         if (e) print_err("now", e);
                         else printf("now ok %lld %lld %lld %lld %d\n", (long long)res.earliest.tv_sec, (long long)res.earliest.tv_nsec, (long long)res.latest.tv_sec, (long long)res.latest.tv_nsec, (int)res.clock_status);
                         fflush(stdout);
